@@ -353,7 +353,10 @@ func (e *Engine) tryStub(name string, fn *ssa.Function, args []Value, g *Term, p
 			}
 			for _, a := range sliceArgs(e, args[1]) {
 				t, ok := a.(*Term)
-				if !ok || !t.IsConst() {
+				if ok && !t.IsConst() {
+					t, ok = e.concretize(t, g)
+				}
+				if !ok {
 					panic(unsupported("vrt.N with symbolic index at " + e.pos(pos)))
 				}
 				base += "_" + strconv.FormatInt(t.SVal(), 10)
